@@ -54,8 +54,29 @@ def _name(f, v):
     return "%s" % (v,)
 
 
+class TwoRequests(Exception):
+    pass
+
+
+def _block_reaches(f, a, b):
+    seen, st = set(), list(f.blocks[a].succs)
+    while st:
+        x = st.pop()
+        if x == b:
+            return True
+        if x in seen:
+            continue
+        seen.add(x)
+        st.extend(f.blocks[x].succs)
+    return False
+
+
 def entropy_call(f):
     ics = [c for c in f.calls() if c.callee is None]
+    if len(ics) == 2 and (ics[0].b == ics[1].b or _block_reaches(f, ics[0].b, ics[1].b) or _block_reaches(f, ics[1].b, ics[0].b)):
+        # two requests on one path (a macro that evaluates its argument twice ...): status and mixing cannot both refer to "the" delivery
+        raise TwoRequests("%s makes two entropy requests on one path (%s and %s): the status returned and the bytes mixed in are not those of one delivery"
+                          % (f.name, relpath(ics[0].where), relpath(ics[1].where)))
     if len(ics) != 1:
         raise Broken("%s: expected exactly one indirect (entropy callback) call, found %d" % (f.name, len(ics)))
     return ics[0]
@@ -345,6 +366,19 @@ def run(ck, build):
     n = nullcall_rule(ck, mod, label)
     ck.floor("R-C17-NULLCALL", "indirect calls in module", n, 1)
     same_rule(ck, mod, label)
+    two = False
+    for fname_ in ("tinyjambu_prng_init_user", "tinyjambu_prng_reseed"):
+        g_ = mod.fn(fname_)
+        try:
+            entropy_call(g_)
+            ck.ok("R-C17-STATUS", fname_, "one-request[%s]" % label, "one entropy request per path: the status and the bytes mixed in belong to the same delivery", where=relpath("%s:%d" % (g_.file, g_.line)))
+        except TwoRequests as e:
+            two = True
+            ck.bad("R-C17-STATUS", fname_, "one-request[%s]" % label, str(e), where=relpath("%s:%d" % (g_.file, g_.line)))
+        except Broken:
+            pass        # reported by the rules below
+    if two:
+        return          # (the remaining rules presuppose one request per path)
     fields = {m["name"]: m for m in mod.composites[PRIV]["members"]}
     _, fld, nr = status_rule(ck, mod, "tinyjambu_prng_init_user", label)
     _, fld2, nr2 = status_rule(ck, mod, "tinyjambu_prng_reseed", label)
